@@ -8,10 +8,11 @@ Part 1 is the loop of `httputil.Wrap` as it is written (index running down from
 
 Part 2 is a labelled transition system.  A *request* `i : Rid` is one call of the closure
 `f` returned by `LogMiddleware.Wrap`; it runs through the program counters of `PC` in
-exactly the order of the statements of `f`, the four deferred calls last and in LIFO order
-(`Expected.logmwWrap` below is the statement list the system was written against; the
-`skel_*` theorems of `Theorems/C20.lean` compare it with the list regenerated from the
-source on every run).  Any number of requests interleave at the granularity of single
+exactly the order of the events of `f`, the four deferred calls last and in LIFO order
+(`Expected.logmwWrap` below is the normal form of `Wrap` the system was written against:
+helpers inlined, every pool `Get` immediately before the first use of its object, the
+deferred calls listed in running order; the `skel_*` theorems of `Theorems/C20.lean`
+compare it with the normal form regenerated from the source on every run).  Any number of requests interleave at the granularity of single
 steps.  `sync.Pool` is modelled per contract MEM-1: `Get` returns either a fresh object
 (the pool's `New`) or an object that was `Put` and not handed out since; the pool may also
 drop an idle object at any time (`gc`).  Which object `Get` returns is the scheduler's
@@ -375,110 +376,200 @@ def written (j : Rid) : List Obs → List (Nat ⊕ Bytes)
   | .wrote i _ b :: rest => if i = j then .inr b :: written j rest else written j rest
   | _ :: rest => written j rest
 
-/-! ### The statement lists the system was written against -/
+/-! ### The normal forms the system was written against
+
+These are the lists `gen/c20skel.go` produces for the unchanged tree (read the comment at
+the top of `gen/c20norm.go` for the notation).  They were generated once and reviewed line
+by line against `netutil/httputil/{logmw,responsewriter,httputil}.go` and
+`syncutil/pool.go`: `attrsSlicePtr` and `logFinished` are inlined into the closure, the
+four indexed stores are the `fill` line, the four `defer`s appear as the `on-exit` block
+in force when the wrapped handler is called (in running order), `cmp.Or(w.code, 200)` is the `if recv.<int> == 0` of
+`crwSetImplicitSuccess`, and the index loop of `httputil.Wrap` is `last-to-first`. -/
 
 namespace Expected
 
 def logmwWrap : List String := [
-  "f := func(w http.ResponseWriter, r *http.Request) {",
-  "startTime := time.Now()",
-  "attrsPtr := mw.attrsSlicePtr(r)",
-  "defer mw.attrPool.Put(attrsPtr)",
-  "logHdlr := mw.logger.Handler().WithAttrs(*attrsPtr)",
-  "l := slog.New(logHdlr)",
-  "ctx := slogutil.ContextWithLogger(r.Context(), l)",
-  "nextReq := mw.reqPool.Get()",
-  "defer mw.reqPool.Put(nextReq)",
-  "CopyRequestTo(ctx, nextReq, r)",
-  "rw := mw.rwPool.Get()",
-  "defer mw.rwPool.Put(rw)",
-  "rw.Reset(w)",
-  "l.Log(ctx, mw.lvl, \"started\")",
-  "defer mw.logFinished(ctx, l, rw, startTime)",
-  "h.ServeHTTP(rw, nextReq)",
-  "rw.SetImplicitSuccess()",
+  "return http.HandlerFunc(func(c0 http.ResponseWriter, c1 *http.Request) {",
+  "obj<[]slog.Attr> := get recv.<Pool[[]slog.Attr]>",
+  "fill *obj<[]slog.Attr> := [slog.String(\"host\", c1.Host), slog.String(\"method\", c1.Method), slog.String(\"raddr\", c1.RemoteAddr), slog.String(\"request_uri\", c1.RequestURI)] (len 4)",
+  "%1 := call recv.<*slog.Logger>.Handler()",
+  "%2 := call %1.WithAttrs(*obj<[]slog.Attr>)",
+  "%3 := call slog.New(%2)",
+  "%4 := call c1.Context()",
+  "%5 := call slogutil.ContextWithLogger(%4, %3)",
+  "obj<http.Request> := get recv.<Pool[http.Request]>",
+  "call CopyRequestTo(%5, obj<http.Request>, c1)",
+  "obj<CodeRecorderResponseWriter> := get recv.<Pool[CodeRecorderResponseWriter]>",
+  "call obj<CodeRecorderResponseWriter>.Reset(c0)",
+  "call %3.Log(%5, recv.<slog.Level>, \"started\")",
+  "on-exit {",
+  "if call %3.Enabled(%5, recv.<slog.Level>) {",
+  "call %3.Log(%5, recv.<slog.Level>, \"finished\", \"code\", obj<CodeRecorderResponseWriter>.<int>, \"elapsed\", _:timeutil.Duration)",
   "}",
-  "return http.HandlerFunc(f)"
-]
-
-def logFinished : List String := [
-  "if l.Enabled(ctx, mw.lvl) {",
-  "l.Log(ctx, mw.lvl, \"finished\", \"code\", rw.code, \"elapsed\", timeutil.Duration(time.Since(startTime)))",
-  "}"
-]
-
-def attrsSlicePtr : List String := [
-  "attrsPtr = mw.attrPool.Get()",
-  "attrs := *attrsPtr",
-  "_ = attrs[logMwAttrNum-1]",
-  "attrs[0] = slog.String(\"host\", r.Host)",
-  "attrs[1] = slog.String(\"method\", r.Method)",
-  "attrs[2] = slog.String(\"raddr\", r.RemoteAddr)",
-  "attrs[3] = slog.String(\"request_uri\", r.RequestURI)",
-  "return attrsPtr"
+  "put recv.<Pool[CodeRecorderResponseWriter]> obj<CodeRecorderResponseWriter>",
+  "put recv.<Pool[http.Request]> obj<http.Request>",
+  "put recv.<Pool[[]slog.Attr]> obj<[]slog.Attr>",
+  "}",
+  "call p0.ServeHTTP(obj<CodeRecorderResponseWriter>, obj<http.Request>)",
+  "on-panic {",
+  "if call %3.Enabled(%5, recv.<slog.Level>) {",
+  "call %3.Log(%5, recv.<slog.Level>, \"finished\", \"code\", obj<CodeRecorderResponseWriter>.<int>, \"elapsed\", _:timeutil.Duration)",
+  "}",
+  "}",
+  "call obj<CodeRecorderResponseWriter>.SetImplicitSuccess()",
+  "run on-exit",
+  "})"
 ]
 
 def newLogMiddleware : List String := [
-  "return &LogMiddleware{attrPool: syncutil.NewSlicePool[slog.Attr](logMwAttrNum), reqPool: syncutil.NewPool(func() (r *http.Request) {return &http.Request{}}), rwPool: syncutil.NewPool(func() (rw *CodeRecorderResponseWriter) {return &CodeRecorderResponseWriter{}}), logger: l, lvl: lvl}"
+  "%1 := call syncutil.NewPool[http.Request](func() (*http.Request) {",
+  "return &http.Request{}",
+  "})",
+  "%2 := call syncutil.NewPool[CodeRecorderResponseWriter](func() (*CodeRecorderResponseWriter) {",
+  "return &CodeRecorderResponseWriter{}",
+  "})",
+  "return &LogMiddleware{<*syncutil.Pool[[]slog.Attr]>: syncutil.NewSlicePool[slog.Attr](4), <*syncutil.Pool[http.Request]>: %1, <*syncutil.Pool[CodeRecorderResponseWriter]>: %2, <*slog.Logger>: p0, <slog.Level>: p1}"
 ]
 
 def httputilWrap : List String := [
-  "wrapped = h",
-  "for i := len(middlewares) - 1; i >= 0; i-- {",
-  "m := middlewares[i]",
-  "wrapped = m.Wrap(wrapped)",
+  "res0 := p0",
+  "for elem of p1 last-to-first {",
+  "res0 := call elem.Wrap(res0)",
   "}",
-  "return wrapped"
+  "return res0"
 ]
 
-def copyRequestTo : List String := ["*dst = *src.WithContext(ctx)"]
-def crwReset : List String := ["w.rw = rw", "w.code = 0"]
-def crwSetImplicitSuccess : List String := ["w.code = cmp.Or(w.code, http.StatusOK)"]
-def crwWriteHeader : List String := ["w.code = code", "w.rw.WriteHeader(code)"]
-def crwWrite : List String := ["return w.rw.Write(b)"]
-def crwHeader : List String := ["return w.rw.Header()"]
+def copyRequestTo : List String := [
+  "%1 := call p2.WithContext(p0)",
+  "*p1 := *%1"
+]
+
+def crwReset : List String := [
+  "recv.<http.ResponseWriter> := p0",
+  "recv.<int> := 0"
+]
+
+def crwSetImplicitSuccess : List String := [
+  "if recv.<int> == 0 {",
+  "recv.<int> := 200",
+  "}"
+]
+
+def crwWriteHeader : List String := [
+  "recv.<int> := p0",
+  "call recv.<http.ResponseWriter>.WriteHeader(p0)"
+]
+
+def crwWrite : List String := [
+  "return call recv.<http.ResponseWriter>.Write(p0)"
+]
+
+def crwHeader : List String := [
+  "return call recv.<http.ResponseWriter>.Header()"
+]
 
 def newPool : List String := [
-  "if newFunc == nil {",
+  "if p0 == nil {",
   "panic(fmt.Errorf(\"nil newFunc in NewPool\"))",
-  "}",
-  "return &Pool[T]{pool: &sync.Pool{New: func() (v any) {return newFunc()}}}"
+  "} else {",
+  "return &Pool[T]{<*sync.Pool>: &sync.Pool{New: func() (any) {",
+  "return call p0()",
+  "}}}",
+  "}"
 ]
-def newSlicePool : List String := ["return NewPool(func() (v *[]T) {s := make([]T, l) return &s})"]
-def poolGet : List String := ["return p.pool.Get().(*T)"]
-def poolPut : List String := ["p.pool.Put(v)"]
+
+def newSlicePool : List String := [
+  "return call NewPool[[]T](func() (*[]T) {",
+  "var1 := make([]T, p0)",
+  "return &var1",
+  "})"
+]
+
+def poolGet : List String := [
+  "%1 := call recv.<*sync.Pool>.Get()",
+  "return %1.(*T)"
+]
+
+def poolPut : List String := [
+  "call recv.<*sync.Pool>.Put(p0)"
+]
 
 end Expected
 
-/-- Go's execution order of a straight-line function body: the statements in order, then
-the deferred calls last-in-first-out. -/
-def linearize (stmts : List String) : List String :=
-  stmts.filter (fun s => !s.startsWith "defer ") ++
-    ((stmts.filter (·.startsWith "defer ")).reverse.map (·.drop 6 |>.toString))
+/-! ### Reading a normal form
 
-/-- the body of the closure `f` inside `LogMiddleware.Wrap` -/
-def closureBody (stmts : List String) : List String :=
-  ((stmts.drop 1).takeWhile (· ≠ "}"))
+The lines of a function in normal form are its events in program order.  An `on-exit {` …
+`}` block is not an event: it lists the deferred calls that would run, in the order in which
+they would run, if the function were left at the next event whose panic the model follows
+(a call of a handler or callback that is a parameter, `panic`), at a `return` or at the end;
+it is printed whenever that list has changed.  `run on-exit` is the normal end of the
+function: the calls of the `on-exit` block printed last run.  An `on-panic {` … `}` block
+is the same list for the other events that can panic (calls into the logger, `net/http`,
+…), without the pool `Put`s of objects that no later deferred call mentions (whether an
+unused object goes back to its pool or is dropped is unobservable under MEM-1); the
+transition system has no transition for such a panic, so the reader skips these blocks. -/
 
-/-- Each statement of `f`, in execution order, with the program counter at which the
-system performs it. -/
+/-- state of the reader: the events so far, the block being read, the `on-exit` block read
+last, the brace depth inside a block (0 = outside), and whether the block is `on-exit` -/
+structure NP where
+  out : List String := []
+  cur : List String := []
+  last : List String := []
+  depth : Nat := 0
+  keep : Bool := false
+
+def npStep (s : NP) (l : String) : NP :=
+  if s.depth > 0 then
+    if l = "}" then
+      if s.depth = 1 then { s with depth := 0, last := if s.keep then s.cur else s.last, cur := [] }
+      else { s with depth := s.depth - 1, cur := s.cur ++ [l] }
+    else if l.endsWith "{" && !l.startsWith "}" then { s with depth := s.depth + 1, cur := s.cur ++ [l] }
+    else { s with cur := s.cur ++ [l] }
+  else if l = "on-exit {" then { s with depth := 1, cur := [], keep := true }
+  else if l = "on-panic {" then { s with depth := 1, cur := [], keep := false }
+  else if l = "run on-exit" then { s with out := s.out ++ s.last }
+  else { s with out := s.out ++ [l] }
+
+/-- Go's execution order on the path without panics: the events in sequence, then the
+deferred calls (last-in-first-out; the translator has already put them in running order). -/
+def normalPath (lines : List String) : List String := (lines.foldl npStep {}).out
+
+/-- the deferred calls that run if the event `ev` panics -/
+def exitAt (ev : String) (lines : List String) : List String :=
+  ((lines.takeWhile (· ≠ ev)).foldl npStep {}).last
+
+/-- the body of the closure returned by `LogMiddleware.Wrap`: the lines between
+`return http.HandlerFunc(func(c0 http.ResponseWriter, c1 *http.Request) {` and `})` -/
+def closureBody (lines : List String) : List String := (lines.drop 1).dropLast
+
+/-- the serve event -/
+def serveLine : String := "call p0.ServeHTTP(obj<CodeRecorderResponseWriter>, obj<http.Request>)"
+
+/-- Each event of the closure, in execution order, with the program counter at which the
+system performs it.  (`recv` = the middleware, `p0` = the wrapped handler `h`, `c0`/`c1` =
+the closure's `w`/`r`, `obj<T>` = the object taken from the pool of `T`s, `%k` = the
+result of the k-th call: `%3` = the request logger `l`, `%5` = the context `ctx`.) -/
 def pcOrder : List (String × PC) := [
-  ("startTime := time.Now()", .getAttr),
-  ("attrsPtr := mw.attrsSlicePtr(r)", .getAttr),       -- Get, then the stores at `fillAttr`
-  ("logHdlr := mw.logger.Handler().WithAttrs(*attrsPtr)", .withAttrs),
-  ("l := slog.New(logHdlr)", .withAttrs),
-  ("ctx := slogutil.ContextWithLogger(r.Context(), l)", .withAttrs),
-  ("nextReq := mw.reqPool.Get()", .getReq),
-  ("CopyRequestTo(ctx, nextReq, r)", .copyReq),
-  ("rw := mw.rwPool.Get()", .getRw),
-  ("rw.Reset(w)", .resetRw),
-  ("l.Log(ctx, mw.lvl, \"started\")", .logStarted),
-  ("h.ServeHTTP(rw, nextReq)", .serve),
-  ("rw.SetImplicitSuccess()", .implicit),
-  ("mw.logFinished(ctx, l, rw, startTime)", .logFinished),
-  ("mw.rwPool.Put(rw)", .putRw),
-  ("mw.reqPool.Put(nextReq)", .putReq),
-  ("mw.attrPool.Put(attrsPtr)", .putAttr)
+  ("obj<[]slog.Attr> := get recv.<Pool[[]slog.Attr]>", .getAttr),
+  ("fill *obj<[]slog.Attr> := [slog.String(\"host\", c1.Host), slog.String(\"method\", c1.Method), slog.String(\"raddr\", c1.RemoteAddr), slog.String(\"request_uri\", c1.RequestURI)] (len 4)", .fillAttr),
+  ("%1 := call recv.<*slog.Logger>.Handler()", .withAttrs),
+  ("%2 := call %1.WithAttrs(*obj<[]slog.Attr>)", .withAttrs),
+  ("%3 := call slog.New(%2)", .withAttrs),
+  ("%4 := call c1.Context()", .withAttrs),
+  ("%5 := call slogutil.ContextWithLogger(%4, %3)", .withAttrs),
+  ("obj<http.Request> := get recv.<Pool[http.Request]>", .getReq),
+  ("call CopyRequestTo(%5, obj<http.Request>, c1)", .copyReq),
+  ("obj<CodeRecorderResponseWriter> := get recv.<Pool[CodeRecorderResponseWriter]>", .getRw),
+  ("call obj<CodeRecorderResponseWriter>.Reset(c0)", .resetRw),
+  ("call %3.Log(%5, recv.<slog.Level>, \"started\")", .logStarted),
+  (serveLine, .serve),
+  ("call obj<CodeRecorderResponseWriter>.SetImplicitSuccess()", .implicit),
+  ("if call %3.Enabled(%5, recv.<slog.Level>) {", .logFinished),
+  ("call %3.Log(%5, recv.<slog.Level>, \"finished\", \"code\", obj<CodeRecorderResponseWriter>.<int>, \"elapsed\", _:timeutil.Duration)", .logFinished),
+  ("}", .logFinished),
+  ("put recv.<Pool[CodeRecorderResponseWriter]> obj<CodeRecorderResponseWriter>", .putRw),
+  ("put recv.<Pool[http.Request]> obj<http.Request>", .putReq),
+  ("put recv.<Pool[[]slog.Attr]> obj<[]slog.Attr>", .putAttr)
 ]
 
 def PC.rank : PC → Nat
